@@ -153,6 +153,11 @@ with parse_ok_f (c : case) (fs : gfields) : bool :=
 Definition cbq_ok (c : case) : bool :=
   forallb (fun x => negb (fst (snd x)) || tag_ok_raw (fst x)) (c_cbq c).
 
+(* the tracker never hands out a predeclared identifier (hypothesis tracker_not_predeclared = C03_not_predeclared_universe,
+   true of the tracker after fixes/C03-3; re-tested here on the import table of every case) *)
+Definition not_predeclared_ok (c : case) : bool :=
+  forallb (fun x => negb (is_predeclared (snd x))) (c_imports c).
+
 (* ---- the classifier of the known-finding class nested_generic_arg_list (C15 defect #11) ---- *)
 (* some instantiation N[.. A ..] has an argument A = L[x1..xn], n >= 2, with a generic xj, j < n *)
 Definition is_generic (g : gty) : bool := match g with GNamed _ _ (GCons _ _) => true | _ => false end.
@@ -203,7 +208,8 @@ Definition mismatch (c : case) : bool :=
           || (c_dom c && negb (c_cls c) && negb (parse_ok c g))
       | None => c_dom c
       end)
-  || negb (cbq_ok c).
+  || negb (cbq_ok c)
+  || negb (not_predeclared_ok c).
 
 (* ---- the property, as a predicate on what the implementation rendered ---- *)
 Definition subset_b (a b : list bytes) : bool := forallb (fun x => mem_bytes x b) a.
